@@ -104,9 +104,14 @@ def presentations(case):
     out['P2-explicit-units'] = (None, [dict(H=('explicit', ex['H']), S=('explicit', ex['S']), Cp=('explicit', ex['Cp']),
                                             T=('explicit', ex['T'])) for _ in range(n)])
     out['P3-mixture'] = (blk, [dict((k, tuple(v)) for k, v in m.items()) for m in case['mix']])
+    # the same numbers written with an integer mantissa and a power of ten (5e-1 for 0.5): read by the unit grammar where a unit
+    # follows or a default applies, by the plain-number reader for the non-dimensional keys
+    out['P2e-explicit-units-exponent-notation'] = (None, [dict(p, num='exponent') for p in out['P2-explicit-units'][1]])
+    out['P1e-default-units-exponent-notation'] = (blk, [dict(p, num='exponent') for p in out['P1-default-units'][1]])
+    out['P0e-nondimensional-exponent-notation'] = (None, [dict(p, num='exponent') for p in out['P0-nondimensional'][1]])
     for key, (b, ps) in out.items():
         for i, p in enumerate(ps):
-            p['order'] = case['order'][i] if key != 'P0-nondimensional' else None
+            p['order'] = case['order'][i] if not key.startswith('P0') else None
     return names, out
 
 
